@@ -724,7 +724,7 @@ func getLength(token Token, negative, percentage bool) pr.Dimension {
 			return pr.PercToD(token.ValueF)
 		}
 	case pa.Dimension:
-		unit, isKnown := LENGTHUNITS[string(token.Unit)]
+		unit, isKnown := LENGTHUNITS[utils.AsciiLower(token.Unit)]
 		if isKnown && (negative || token.ValueF >= 0) {
 			return pr.NewDim(pr.Float(token.ValueF), unit)
 		}
@@ -739,7 +739,7 @@ func getLength(token Token, negative, percentage bool) pr.Dimension {
 // Return the value in radians of an <angle> token, or None.
 func getAngle(token Token) (utils.Fl, bool) {
 	if dim, ok := token.(pa.Dimension); ok {
-		unit, in := AngleUnits[string(dim.Unit)]
+		unit, in := AngleUnits[utils.AsciiLower(dim.Unit)]
 		if in {
 			return dim.ValueF * ANGLETORADIANS[unit], true
 		}
@@ -750,7 +750,7 @@ func getAngle(token Token) (utils.Fl, bool) {
 // Return the value in dppx of a <resolution> token, or false.
 func getResolution(token Token) (utils.Fl, bool) {
 	if dim, ok := token.(pa.Dimension); ok {
-		factor, in := RESOLUTIONTODPPX[string(dim.Unit)]
+		factor, in := RESOLUTIONTODPPX[utils.AsciiLower(dim.Unit)]
 		if in {
 			return dim.ValueF * factor, true
 		}
@@ -1617,7 +1617,7 @@ func counter(tokens []Token, defaultInteger int) ([]pr.IntString, error) {
 			return nil, nil // expected a keyword here
 		}
 		counterName := ident.Value
-		if counterName == "none" || counterName == "initial" || counterName == "inherit" {
+		if lower := utils.AsciiLower(counterName); lower == "none" || lower == "initial" || lower == "inherit" {
 			return nil, fmt.Errorf("invalid counter name: %s", counterName)
 		}
 		token = iter.Next()
@@ -1743,7 +1743,7 @@ func display(tokens []Token, _ string) pr.CssProperty {
 		if !ok {
 			return nil
 		}
-		value := string(ident.Value)
+		value := utils.AsciiLower(ident.Value)
 		switch value {
 		case "block", "inline":
 			if outside != "" {
@@ -1977,7 +1977,7 @@ func _fontFeatureSettings(tokens []Token) (pr.FontFeatures, bool) {
 			tokens, token = tokens[0:1], tokens[1]
 			switch tt := token.(type) {
 			case pa.Ident:
-				if tt.Value == "on" {
+				if utils.AsciiLower(tt.Value) == "on" {
 					value = 1
 				} else {
 					value = 0
@@ -2259,7 +2259,7 @@ func listStyleType_(tokens []Token) (out pr.CounterStyleID, ok bool) {
 	case pa.String:
 		return pr.CounterStyleID{Type: "string", Name: token.Value}, true
 	case pa.FunctionBlock:
-		if token.Name != "symbols" {
+		if utils.AsciiLower(token.Name) != "symbols" {
 			return out, false
 		}
 		functionArguments := pa.RemoveWhitespace(token.Arguments)
@@ -2268,8 +2268,8 @@ func listStyleType_(tokens []Token) (out pr.CounterStyleID, ok bool) {
 		}
 		arguments := []string{"symbolic"}
 		if arg0, ok := functionArguments[0].(pa.Ident); ok {
-			if arg0.Value == "cyclic" || arg0.Value == "numeric" || arg0.Value == "alphabetic" || arg0.Value == "symbolic" || arg0.Value == "fixed" {
-				arguments = []string{string(arg0.Value)}
+			if system := utils.AsciiLower(arg0.Value); system == "cyclic" || system == "numeric" || system == "alphabetic" || system == "symbolic" || system == "fixed" {
+				arguments = []string{system}
 				functionArguments = functionArguments[1:]
 			} else {
 				return out, false
@@ -2473,7 +2473,7 @@ func position(tokens []Token, _ string) pr.CssProperty {
 		return nil
 	}
 	token := tokens[0]
-	if fn, ok := token.(pa.FunctionBlock); ok && fn.Name == "running" && len(fn.Arguments) == 1 {
+	if fn, ok := token.(pa.FunctionBlock); ok && utils.AsciiLower(fn.Name) == "running" && len(fn.Arguments) == 1 {
 		if ident, ok := (fn.Arguments)[0].(pa.Ident); ok {
 			return pr.BoolString{Bool: true, String: string(ident.Value)}
 		}
@@ -2779,7 +2779,7 @@ func parseInflexibleBreadth(token Token) pr.DimOrS {
 
 // Parse “track-breadth“.
 func parseTrackBreadth(token Token) pr.DimOrS {
-	if dim, ok := token.(pa.Dimension); ok && dim.ValueF >= 0 && dim.Unit == "fr" {
+	if dim, ok := token.(pa.Dimension); ok && dim.ValueF >= 0 && utils.AsciiLower(dim.Unit) == "fr" {
 		return pr.NewDim(pr.Float(dim.ValueF), pr.Fr).ToValue()
 	}
 	return parseInflexibleBreadth(token)
